@@ -1,10 +1,28 @@
 """./check replay <path>: run the recorded counterexample through the real crates (dev and release builds)."""
-import sys, json
+import sys, json, subprocess
 from common import *
+
+BIN_OF = {'get_position': 'replay_core', 'get_duration': 'replay_core', 'dur': 'replay_core', 'ease': 'replay_core', 'lerp': 'replay_core',
+          'timeline_eval': 'replay_tl', 'merged': 'replay_tl', 'perm_eval': 'replay_tl', 'purity': 'replay_tl', 'twin_eval': 'replay_tl',
+          'animator_history': 'replay_anim',
+          'bevy_animator': 'replay_bevy', 'bevy_chain_other': 'replay_bevy', 'bevy_selector': 'replay_bevy', 'bevy_history': 'replay_bevy'}
+
 v = json.load(open(sys.argv[1]))
 case = v['case']
 cases = case if isinstance(case, list) else [case]
-binn = v.get('bin', 'replay_core')
+kind = cases[0].get('kind', '')
 print('property:', v['property'], '|', v['description'])
-for prof in ('dev', 'release'):
-    print(prof, json.dumps(run_replay(cases, prof, binn)))
+if kind == 'macro_native':
+    # generated subject crate: the macro form and its documented builder reading are compiled side by side and compared natively
+    import c15
+    tdir = os.path.join(BUILD, 'macros-target')
+    r = subprocess.run(['cargo', 'build', '--offline', '--target-dir', tdir, '--bin', 'macro_native'], cwd=c15.MACROS, env=dict(c15.ENV, RUSTFLAGS='-A warnings'), capture_output=True, text=True)
+    if r.returncode != 0:
+        print('build failed:', r.stderr[-800:]); sys.exit(2)
+    print(subprocess.run([os.path.join(tdir, 'debug', 'macro_native'), cases[0]['item']], capture_output=True, text=True, timeout=300).stdout)
+elif kind in ('macro_kernel', 'derive_shape'):
+    print('this counterexample is a statement about the compiled macro expansion (no run-time input): re-run the check to re-derive it:', json.dumps(cases[0]))
+else:
+    binn = v.get('bin') or BIN_OF.get(kind, 'replay_core')
+    for prof in ('dev', 'release'):
+        print(prof, json.dumps(run_replay(cases, prof, binn, timeout=900)))
